@@ -266,6 +266,8 @@ def _may_release(P):
 def check(ctx):
     wal.check_emit(ctx)
     check_write(ctx)
+    from . import c04
+    c04.check_group_ack(ctx)   # an acknowledged follower is part of the logged group
     check_replay_set(ctx)
     check_log_file(ctx)
     check_retirement(ctx)
